@@ -690,6 +690,71 @@ def thr2(ctx: Ctx) -> None:
         ctx.R.undecided("THR-2", f"{q}: cannot see how the hosting thread is selected")
 
 
+def idkey1(ctx: Ctx) -> None:
+    """IDKEY-1 a container that outlives one call (module level, attribute of self, default argument) and is keyed by id(x)
+    keeps x itself alive in the entry (as IdentityDict does: `_data[id(k)] = (k, v)`): otherwise x can be freed, its address
+    reused by another object, and that object is served the entry of the dead one (a line number, a registration, ...)"""
+    n = 0
+    example = ast.parse("_c = {}\ndef f(fr):\n    _c[(id(fr.f_code), fr.f_lasti)] = fr.f_lineno\n")
+    ctx.R.positive_example("IDKEY-1", bool(_idkey_findings(example, None)))
+    for mod in ctx.P.analysed_mods():
+        for st, keyed, cont in _idkey_findings(mod.tree, mod):
+            n += 1
+            ctx.R.fail("IDKEY-1", mod, st, f"{mod.qualname_of(st)}: `{cont}` outlives the call and is keyed by `id({keyed})`, but the entry does not hold `{keyed}`: once that object is freed its id is reused, "
+                       "and the next object at the same address is served the stale entry", construct=f"{cont} keyed by id({keyed}) without keeping it alive")
+    good = 0
+    for mod in ctx.P.analysed_mods():
+        for st in ast.walk(mod.tree):
+            if isinstance(st, ast.Assign) and isinstance(st.targets[0], ast.Subscript) and "id(" in norm(st.targets[0].slice) and norm(st.targets[0].value).startswith("self."):
+                good += 1
+    if n == 0:
+        ctx.R.ok("IDKEY-1", f"every persistent id()-keyed store keeps its key object alive ({good} store(s) through self.<table>)")
+
+
+def _idkey_findings(tree: ast.AST, mod: Optional[Mod]):
+    out = []
+    # persistent containers: module-level names bound to a dict / set / IdentityDict-free literal or constructor, self attributes
+    persistent = set()
+    for st in getattr(tree, "body", []):
+        if isinstance(st, (ast.Assign, ast.AnnAssign)) and st.value is not None:
+            tg = st.targets[0] if isinstance(st, ast.Assign) else st.target
+            if isinstance(tg, ast.Name) and (isinstance(st.value, (ast.Dict, ast.Set)) or (isinstance(st.value, ast.Call) and norm(st.value.func).split(".")[-1] in ("dict", "set", "OrderedDict", "defaultdict"))):
+                persistent.add(tg.id)
+    for fn in ast.walk(tree):
+        if not isinstance(fn, (ast.FunctionDef, ast.AsyncFunctionDef)):
+            continue
+        defaults = {a.arg for a, d in zip((fn.args.posonlyargs + fn.args.args)[::-1], fn.args.defaults[::-1]) if isinstance(d, (ast.Dict, ast.List, ast.Set))}
+        defaults |= {a.arg for a, d in zip(fn.args.kwonlyargs, fn.args.kw_defaults) if isinstance(d, (ast.Dict, ast.List, ast.Set))}
+        for st in ast.walk(fn):
+            key = val = cont = None
+            if isinstance(st, ast.Assign) and len(st.targets) >= 1 and isinstance(st.targets[-1], ast.Subscript):
+                sub = st.targets[-1]
+                key, val, cont = sub.slice, st.value, sub.value
+            elif isinstance(st, ast.Call) and isinstance(st.func, ast.Attribute) and st.func.attr == "setdefault" and len(st.args) == 2:
+                key, val, cont = st.args[0], st.args[1], st.func.value
+            if key is None:
+                continue
+            ctext = norm(cont)
+            is_persistent = (isinstance(cont, ast.Name) and (cont.id in persistent or cont.id in defaults)) or ctext.startswith("self.")
+            if not is_persistent:
+                continue
+            # resolve a local key name
+            if isinstance(key, ast.Name):
+                src = [a_.value for a_ in ast.walk(fn) if isinstance(a_, ast.Assign) and len(a_.targets) == 1 and norm(a_.targets[0]) == key.id]
+                if len(src) == 1:
+                    key = src[0]
+            ids = [c for c in ast.walk(key) if isinstance(c, ast.Call) and isinstance(c.func, ast.Name) and c.func.id == "id" and len(c.args) == 1]
+            for c in ids:
+                keyed = norm(c.args[0])
+                # the entry keeps the object alive if the stored value mentions it (the pair (k, v)) ...
+                vtext = norm(val)
+                holds = any(norm(x) == keyed for x in ast.walk(val))
+                # ... or the keyed object is a chain whose root the value holds (id(frame.f_code) with frame stored)
+                if not holds:
+                    out.append((st if isinstance(st, ast.stmt) else st, keyed, ctext))
+    return out
+
+
 GLOBAL_MUTATORS = {
     # call -> what undoes it
     "gc.disable": "gc.enable", "gc.enable": "gc.disable", "gc.freeze": "gc.unfreeze", "gc.set_threshold": "gc.set_threshold", "gc.set_debug": "gc.set_debug",
